@@ -105,6 +105,8 @@ def vector_case(rep, replay: dict) -> None:
 def run(ctx) -> None:
     run_track_correspondence(ctx, "C06", ctx.n(8, 200))
     vector_probe(ctx, ctx.n(16, 400))
+    import context_probes as CP
+    CP.diagnostics_probe(ctx, "C06", ctx.n(16, 400))
     if F is not None:
         F.run(ctx)
 
@@ -112,6 +114,9 @@ def run(ctx) -> None:
 def corpus_case(ctx, r: dict) -> None:
     if r.get("kind") == "vector_probe":
         return vector_case(ctx.report, r)
+    if r.get("kind") == "diagnostic":
+        import context_probes as CP
+        return CP.diagnostics_case(ctx.report, "C06", r)
     if F is not None and hasattr(F, "corpus_case"):
         F.corpus_case(ctx, r)
 
